@@ -7,6 +7,7 @@ import re
 from vlib import metagram
 from vlib.core import REPO, AnalysisError, Report
 from vlib.match import X, atoms, concat_parts, nodes
+from vlib.srcindex import const_str
 from vlib.srcindex import SourceIndex, attr_chain
 
 LEVEL = 'translation_validation'
@@ -65,37 +66,40 @@ def rule_codec(rep: Report, idx) -> None:
 	rep.consulted(m.relpath)
 	make = m.func('Pattern.make')
 	pp = m.func('Prettier._pretty_pattern')
-	# reader: delimiter -> comp
+	# reader: delimiter -> comp, from the facts at each constructor call
 	reader = {}
-	for n in ast.walk(make.node):
-		if isinstance(n, ast.If) and isinstance(n.test, ast.BoolOp):
-			t = unparse(n.test)
-			for d in ('"', '/'):
-				if f"expression.startswith('{d}') and expression.endswith('{d}')" in t:
-					comps = [unparse(c.args[-1]) for c in ast.walk(ast.Module(body=n.body, type_ignores=[])) if isinstance(c, ast.Call) and isinstance(c.func, ast.Name) and c.func.id == 'cls' and c.args]
-					reader[d] = sorted(set(comps))
+	mx = X(make)
+	for c_ in nodes(mx, ast.Call):
+		if not (isinstance(c_.func, ast.Name) and c_.func.id == 'cls' and c_.args):
+			continue
+		known = atoms(mx, c_)
+		starts = {const_str(a.args[0]) for a, p_ in known if p_ and isinstance(a, ast.Call) and isinstance(a.func, ast.Attribute) and a.func.attr == 'startswith' and a.args}
+		ends = {const_str(a.args[0]) for a, p_ in known if p_ and isinstance(a, ast.Call) and isinstance(a.func, ast.Attribute) and a.func.attr == 'endswith' and a.args}
+		for d in starts & ends:
+			if d:
+				reader[d] = sorted(set(reader.get(d, [])) | {unparse(c_.args[-1])})
 	# is the reader's un-escaping restricted to exact two-character terminals?
-	msrc = unparse(make.node)
-	restricted = 'len(candidate) == 2' in msrc
-	unescapes = '__space_codes' in msrc
+	restricted = any(isinstance(n, ast.Compare) and isinstance(n.left, ast.Call) and unparse(n.left.func) == 'len' and isinstance(n.ops[0], ast.Eq) and unparse(n.comparators[0]) == '2' for n in nodes(mx, ast.Compare))
+	unescapes = any(isinstance(n, ast.Attribute) and n.attr.endswith('__space_codes') for n in nodes(mx))
 	# writer: comp -> (delimiter, expression transformed?)
 	writer = {}
-	cur = next((s_ for s_ in pp.node.body if isinstance(s_, ast.If)), None)
-	while isinstance(cur, ast.If):
-		comp = unparse(cur.test.comparators[0]) if isinstance(cur.test, ast.Compare) else None
-		ret = next((x for x in ast.walk(ast.Module(body=cur.body, type_ignores=[])) if isinstance(x, ast.Return)), None)
-		if comp and ret is not None and isinstance(ret.value, ast.JoinedStr):
-			vals = ret.value.values
-			if len(vals) == 3 and isinstance(vals[0], ast.Constant) and isinstance(vals[2], ast.Constant) and isinstance(vals[1], ast.FormattedValue):
-				writer[comp] = (vals[0].value, vals[2].value, unparse(vals[1].value), ret.lineno)
-		cur = cur.orelse[0] if len(cur.orelse) == 1 and isinstance(cur.orelse[0], ast.If) else None
+	px = X(pp)
+	pparam = pp.params()[-1]
+	for ret in nodes(px, ast.Return):
+		if ret.value is None:
+			continue
+		comps = [unparse(a.comparators[0]) for a, p_ in atoms(px, ret) if p_ and isinstance(a, ast.Compare) and len(a.ops) == 1 and isinstance(a.ops[0], (ast.Eq, ast.Is)) and unparse(a.left) == f'{pparam}.comp']
+		parts = concat_parts(ret.value)
+		if len(comps) == 1 and len(parts) == 3 and parts[0][0] == 'const' and parts[2][0] == 'const' and parts[1][0] == 'expr':
+			writer[comps[0]] = (parts[0][1], parts[2][1], unparse(parts[1][1]), ret.lineno)
 	if set(writer) != {'Comps.Regexp', 'Comps.Equals'} or set(reader) != {'"', '/'}:
-		r.undecided('shape', pp.where, f'Prettier._pretty_pattern / Pattern.make changed shape (writer {sorted(writer)}, reader {sorted(reader)})')
+		r.skip('shape', pp.where, f'Prettier._pretty_pattern / Pattern.make changed shape (writer {sorted(writer)}, reader {sorted(reader)})')
+		r.floor = 1
 		return
 	for comp, (a, b, expr, line) in writer.items():
 		rd = reader.get(a, [])
 		r.check(a == b and rd == [comp], f'delimiter:{comp}', (m.relpath, line), f'Prettier prints {comp} terminals as {a}...{b} but Pattern.make reads {a}...{a} as {rd}')
-		verbatim = expr == 'pattern.expression'
+		verbatim = expr == f'{pparam}.expression'
 		if verbatim:
 			r.ok(f'text:{comp}', (m.relpath, line))
 		else:
